@@ -78,6 +78,46 @@ theorem socAcc_last (s : Store) (conv : Rat → Rat) (ps dts : List Rat) (h : dt
   unfold socAcc soc
   rw [List.getLast?_map, acc_last s conv ps dts h]
 
+/-! ### A constant terminal power held as a single value -/
+
+theorem spread_length (ps : List Rat) (n : Nat) (h : ps.length = 1 ∨ n = ps.length) : (spread ps n).length = n := by
+  unfold spread
+  split
+  · simp
+  · rename_i hne
+    rcases h with h | h
+    · match ps, h with
+      | [p], _ => exact absurd rfl (hne p)
+    · exact h.symm
+
+/-- Written as one value or written out, a constant gives the same total and the same accumulated series. -/
+theorem constant_as_single_value (s : Store) (conv : Rat → Rat) (p : Rat) (dts : List Rat) :
+    energyC s conv [p] (.series dts) = energyC s conv (List.replicate dts.length p) (.series dts) ∧
+    energyAccC s conv [p] dts = energyAccC s conv (List.replicate dts.length p) dts := by
+  have h : spread (List.replicate dts.length p) dts.length = List.replicate dts.length p := by
+    unfold spread
+    split
+    · rename_i q hq; rw [hq]
+      have : dts.length = 1 := by simpa using congrArg List.length hq
+      simp [this] at hq ⊢
+    · rfl
+  simp only [energyC, energyAccC, h]
+  simp [spread]
+
+/-- The accumulated series of a constant (or a series of the intervals' length): one more entry than there are
+intervals, starting at zero, ending at the total. -/
+theorem accC_last (s : Store) (conv : Rat → Rat) (ps dts : List Rat) (h : ps.length = 1 ∨ dts.length = ps.length) :
+    (energyAccC s conv ps dts).length = dts.length + 1 ∧ (energyAccC s conv ps dts).head? = some 0 ∧
+    (energyAccC s conv ps dts).getLast? = energyC s conv ps (.series dts) ∧
+    (socAccC s conv ps dts).getLast? = socC s conv ps (.series dts) := by
+  have hl := spread_length ps dts.length h
+  have h1 := acc_length s conv (spread ps dts.length) dts hl.symm
+  have h2 := acc_last s conv (spread ps dts.length) dts hl.symm
+  refine ⟨by rw [energyAccC, h1.1, hl], h1.2, h2, ?_⟩
+  unfold socAccC socC
+  rw [List.getLast?_map]
+  exact congrArg _ h2
+
 /-- The store is never credited more than the terminal power (efficiencies in (0,1]). -/
 theorem cell_le (ηc ηd p : Rat) (hc0 : 0 < ηc) (hc : ηc ≤ 1) (hd0 : 0 < ηd) (hd : ηd ≤ 1) :
     cell ηc ηd p ≤ p := by
